@@ -351,7 +351,16 @@ def inline_unknown_helpers(trees: Dict[str, ast.Module], known: Optional[set] = 
                 if g is not None and _inlinable(g):
                     cand[qn] = g
                     closure_map.setdefault(id(f), {})[name] = qn
-        if not cand:
+        # a closure defined in both branches of an if (one generator or the other, chosen once): a call of it is that if again
+        cond_defs: Dict[int, Dict[str, tuple]] = {}
+        for q, f in list(funcs.items()):
+            for name, (ifn, da, db) in _conditional_defs(f).items():
+                if f"{q}.<locals>.{name}" in known:
+                    continue
+                ga, gb = _single_exit(da), _single_exit(db)
+                if ga is not None and gb is not None and _inlinable(ga) and _inlinable(gb):
+                    cond_defs.setdefault(id(f), {})[name] = (ifn.test, ga, gb)
+        if not cand and not cond_defs:
             break
         done = 0
 
@@ -364,6 +373,8 @@ def inline_unknown_helpers(trees: Dict[str, ast.Module], known: Optional[set] = 
                 return (q, True) if q in cand else None
             if isinstance(f, ast.Name) and f.id in closure_map.get(id(current_caller[0]), {}):
                 return closure_map[id(current_caller[0])][f.id], "closure"
+            if isinstance(f, ast.Name) and f.id in cond_defs.get(id(current_caller[0]), {}) and getattr(call, "lineno", 0) > cond_defs[id(current_caller[0])][f.id][0].lineno:
+                return f.id, "conditional"
             if isinstance(f, ast.Name):
                 q = f"{mod}.{f.id}"
                 if q in cand:
@@ -392,38 +403,49 @@ def inline_unknown_helpers(trees: Dict[str, ast.Module], known: Optional[set] = 
                 if isinstance(s, (ast.Assign, ast.AugAssign, ast.Return, ast.Expr)) and isinstance(getattr(s, "value", None), ast.Call):
                     call = s.value
                 r = resolve(mod, cls, call) if call is not None else None
-                if r is None or cand[r[0]] is caller or cand[r[0]].name == caller.name and funcs.get(r[0]) is caller:
+                if r is not None and r[1] != "conditional" and (cand[r[0]] is caller or cand[r[0]].name == caller.name and funcs.get(r[0]) is caller):
+                    r = None
+                if r is None:
                     out.append(s)
                     continue
                 q, is_m = r
-                tnames = []
-                if isinstance(s, ast.Assign) and len(s.targets) == 1:
-                    t = s.targets[0]
-                    tnames = [e.id for e in (t.elts if isinstance(t, (ast.Tuple, ast.List)) else [t]) if isinstance(e, ast.Name)]
-                ex = _expand(call, cand[q], is_m, caller, tnames, _live_after(caller, s))
-                if ex is None:
+
+                def expand_with(callee):
+                    tnames = []
+                    if isinstance(s, ast.Assign) and len(s.targets) == 1:
+                        t = s.targets[0]
+                        tnames = [e.id for e in (t.elts if isinstance(t, (ast.Tuple, ast.List)) else [t]) if isinstance(e, ast.Name)]
+                    ex = _expand(call, callee, is_m, caller, tnames, _live_after(caller, s))
+                    if ex is None:
+                        return None
+                    stmts, rexpr = ex
+                    tail: List[ast.stmt] = []
+                    if isinstance(s, ast.Expr):
+                        if rexpr is not None and any(isinstance(x, ast.Call) for x in ast.walk(rexpr)):
+                            tail = [ast.Expr(value=rexpr)]
+                    else:
+                        if rexpr is None:
+                            rexpr = ast.Constant(value=None)
+                        if isinstance(s, ast.Assign):
+                            t = s.targets[0] if len(s.targets) == 1 else None
+                            same = t is not None and ast.dump(_as_load(t)) == ast.dump(_as_load(rexpr))
+                            if not same:
+                                tail = [ast.Assign(targets=copy.deepcopy(s.targets), value=rexpr)]
+                        elif isinstance(s, ast.AugAssign):
+                            tail = [ast.AugAssign(target=copy.deepcopy(s.target), op=s.op, value=rexpr)]
+                        else:
+                            tail = [ast.Return(value=rexpr)]
+                    return (stmts + tail) or [ast.Pass()]
+
+                if is_m == "conditional":
+                    test, ga, gb = cond_defs[id(caller)][call.func.id]
+                    na, nb = expand_with(ga), expand_with(gb)
+                    new = None if na is None or nb is None else [ast.If(test=copy.deepcopy(test), body=na, orelse=nb)]
+                else:
+                    new = expand_with(cand[q])
+                if new is None:
                     out.append(s)
                     continue
-                stmts, rexpr = ex
-                tail: List[ast.stmt] = []
-                if isinstance(s, ast.Expr):
-                    if rexpr is not None and any(isinstance(x, ast.Call) for x in ast.walk(rexpr)):
-                        tail = [ast.Expr(value=rexpr)]
-                else:
-                    if rexpr is None:
-                        rexpr = ast.Constant(value=None)
-                    if isinstance(s, ast.Assign):
-                        t = s.targets[0] if len(s.targets) == 1 else None
-                        same = t is not None and ast.dump(_as_load(t)) == ast.dump(_as_load(rexpr))
-                        if not same:
-                            tail = [ast.Assign(targets=s.targets, value=rexpr)]
-                    elif isinstance(s, ast.AugAssign):
-                        tail = [ast.AugAssign(target=s.target, op=s.op, value=rexpr)]
-                    else:
-                        tail = [ast.Return(value=rexpr)]
-                new = stmts + tail
-                if not new:
-                    new = [ast.Pass()]
                 _relocate(new, s)
                 for x in new:
                     ast.fix_missing_locations(x)
@@ -462,10 +484,14 @@ def inline_unknown_helpers(trees: Dict[str, ast.Module], known: Optional[set] = 
         for t in trees.values():
             for f in [x for x in ast.walk(t) if isinstance(x, ast.FunctionDef)]:
                 nd = _nested_defs(f)
-                if not nd:
+                cd = _conditional_defs(f)
+                if not nd and not cd:
                     continue
                 used = {x.id for x in ast.walk(f) if isinstance(x, ast.Name) and isinstance(x.ctx, ast.Load)}
                 dead = {id(x) for name, x in nd.items() if name not in used and not any(q_.endswith(f"{f.name}.<locals>.{name}") for q_ in known)}
+                for name, (ifn, da, db) in cd.items():
+                    if name not in used and not any(q_.endswith(f"{f.name}.<locals>.{name}") for q_ in known):
+                        dead |= {id(da), id(db)}
                 if dead:
                     _drop_stmts(f, dead)
         for mod, t in trees.items():
@@ -499,6 +525,37 @@ def _nested_defs(f: ast.FunctionDef) -> Dict[str, ast.FunctionDef]:
             stores[x.id] = stores.get(x.id, 0) + 1
         stack.extend(ast.iter_child_nodes(x))
     return {n: x for n, x in out.items() if stores.get(n) == 1}
+
+
+def _conditional_defs(f: ast.FunctionDef) -> Dict[str, tuple]:
+    """name -> (if statement, def in its body, def in its else) for a name that f binds exactly twice, by one def in each
+    branch of one if whose test reads only constants and names that f binds at most once (so that it has the same value at
+    every later call as when the closure was chosen)"""
+    stores: Dict[str, int] = {}
+    for x in ast.walk(f):
+        if isinstance(x, (ast.FunctionDef, ast.AsyncFunctionDef, ast.ClassDef)) and x is not f:
+            stores[x.name] = stores.get(x.name, 0) + 1
+        elif isinstance(x, ast.Name) and isinstance(x.ctx, (ast.Store, ast.Del)):
+            stores[x.id] = stores.get(x.id, 0) + 1
+    params = {a.arg for a in f.args.posonlyargs + f.args.args + f.args.kwonlyargs}
+    out = {}
+    stack = list(f.body)
+    while stack:
+        x = stack.pop()
+        if isinstance(x, (ast.FunctionDef, ast.AsyncFunctionDef, ast.ClassDef, ast.Lambda)):
+            continue
+        if isinstance(x, ast.If) and x.orelse:
+            da = [b for b in x.body if isinstance(b, ast.FunctionDef)]
+            db = [b for b in x.orelse if isinstance(b, ast.FunctionDef)]
+            for a_ in da:
+                m = [b_ for b_ in db if b_.name == a_.name]
+                if len(m) == 1 and stores.get(a_.name) == 2:
+                    names = [y for y in ast.walk(x.test) if isinstance(y, ast.Name)]
+                    pure = all(isinstance(y, (ast.Name, ast.Constant, ast.Compare, ast.BoolOp, ast.UnaryOp, ast.cmpop, ast.boolop, ast.unaryop, ast.expr_context)) for y in ast.walk(x.test))
+                    if pure and all(stores.get(y.id, 0) + (1 if y.id in params else 0) <= 1 for y in names):
+                        out[a_.name] = (x, a_, m[0])
+        stack.extend(ast.iter_child_nodes(x))
+    return out
 
 
 def _drop_stmts(f: ast.AST, dead: set) -> None:
@@ -1031,6 +1088,32 @@ def unroll_literal_loops(trees: Dict[str, ast.Module], max_rows: int = 32) -> in
                 tg = s.target
                 names = [tg.id] if isinstance(tg, ast.Name) else ([e.id for e in tg.elts] if isinstance(tg, (ast.Tuple, ast.List)) and all(isinstance(e, ast.Name) for e in tg.elts) else None)
                 ok = names is not None
+                # first-match search:  for row in TABLE: if test(row): ...; break     is the if / elif chain over the rows
+                first_match = None
+                if ok and len(s.body) == 1 and isinstance(s.body[0], ast.If) and not s.body[0].orelse and s.body[0].body and isinstance(s.body[0].body[-1], ast.Break):
+                    inner = s.body[0]
+                    rest_ = ast.Module(body=inner.body[:-1], type_ignores=[])
+                    if not any(isinstance(x, (ast.Break, ast.Continue, ast.FunctionDef, ast.Lambda)) or (isinstance(x, ast.Name) and x.id in names and isinstance(x.ctx, (ast.Store, ast.Del)))
+                               for x in ast.walk(rest_)) and not any(isinstance(x, (ast.Lambda, ast.NamedExpr)) for x in ast.walk(inner.test)):
+                        first_match = inner
+                if first_match is not None:
+                    rows_ok = all(simple(r) if isinstance(tg, ast.Name) else (isinstance(r, (ast.Tuple, ast.List)) and len(r.elts) == len(names) and all(simple(e) for e in r.elts)) for r in rows)
+                    if rows_ok:
+                        chain = None
+                        for r in reversed(rows):
+                            mp = {names[0]: r} if isinstance(tg, ast.Name) else dict(zip(names, r.elts))
+                            sub = _Subst(mp, {})
+                            node = ast.If(test=sub.visit(copy.deepcopy(first_match.test)), body=[sub.visit(copy.deepcopy(b_)) for b_ in first_match.body[:-1]] or [ast.Pass()],
+                                          orelse=[chain] if chain is not None else [])
+                            chain = node
+                        new = [chain]
+                        _relocate(new, s)
+                        for x in new:
+                            ast.fix_missing_locations(x)
+                        out.extend(new)
+                        done += 1
+                        touched.add(mod)
+                        continue
                 if ok:
                     for x in ast.walk(ast.Module(body=s.body, type_ignores=[])):
                         if isinstance(x, (ast.Break, ast.Continue, ast.FunctionDef, ast.Lambda)) or (isinstance(x, ast.Name) and x.id in names and isinstance(x.ctx, (ast.Store, ast.Del))):
@@ -1174,6 +1257,159 @@ def unroll_literal_loops(trees: Dict[str, ast.Module], max_rows: int = 32) -> in
                 loc["__tables__"] = tabs
                 x.body = rewrite(x.body, loc)
                 x.body = comprehensions(x, loc)
+    for mod in touched:
+        renumber(trees[mod])
+    return done
+
+
+# ---------------------------------------------------------------------------
+# setters = {A: obj.set_a, B: obj.set_b}; if k in setters: f = setters[k]; f(x)      is read as the if / elif chain on k
+# ---------------------------------------------------------------------------
+def expand_dispatch_tables(trees: Dict[str, ast.Module]) -> int:
+    """a local bound once to a dict literal whose keys are names / attribute chains / constants and whose values are names or
+    attribute chains (functions, bound methods, classes), never mutated or passed on:
+      - `k in TABLE` / `k not in TABLE`        becomes the membership test in the tuple of its keys,
+      - `f = TABLE[k]` immediately followed by the one statement that uses f, as the callee of `f(...)`, and
+        a statement whose value is `TABLE[k](...)`
+                                                becomes  if k == K1: <statement with V1> elif k == K2: ... else: raise KeyError(k)
+    (k itself must be a name or an attribute chain).  Returns the number of rewrites."""
+    done = 0
+    touched = set()
+
+    def simple(e):
+        return isinstance(e, (ast.Constant, ast.Name)) or (isinstance(e, ast.Attribute) and _chain(e))
+
+    def do_function(fn: ast.FunctionDef, mod: str):
+        nonlocal done
+        stores: Dict[str, int] = {}
+        for x in ast.walk(fn):
+            if isinstance(x, ast.Name) and isinstance(x.ctx, (ast.Store, ast.Del)):
+                stores[x.id] = stores.get(x.id, 0) + 1
+        tables: Dict[str, ast.Dict] = {}
+        for x in ast.walk(fn):
+            if isinstance(x, ast.Assign) and len(x.targets) == 1 and isinstance(x.targets[0], ast.Name) and isinstance(x.value, ast.Dict) and stores.get(x.targets[0].id) == 1 \
+                    and x.value.keys and all(k is not None and simple(k) for k in x.value.keys) and all(isinstance(v, (ast.Name, ast.Attribute)) and simple(v) for v in x.value.values):
+                tables[x.targets[0].id] = x.value
+        if not tables:
+            return
+        # every use of the table must be one of the three forms
+        uses = {n: [] for n in tables}
+        parents = {}
+        for x in ast.walk(fn):
+            for c in ast.iter_child_nodes(x):
+                parents[id(c)] = x
+        for x in ast.walk(fn):
+            if isinstance(x, ast.Name) and x.id in tables and isinstance(x.ctx, ast.Load):
+                uses[x.id].append(x)
+        for name in list(tables):
+            for u in uses[name]:
+                par = parents.get(id(u))
+                ok = (isinstance(par, ast.Compare) and len(par.ops) == 1 and isinstance(par.ops[0], (ast.In, ast.NotIn)) and par.comparators[0] is u and simple(par.left)) \
+                    or (isinstance(par, ast.Subscript) and par.value is u and isinstance(par.ctx, ast.Load) and simple(par.slice) and not isinstance(par.slice, ast.Constant))
+                if not ok:
+                    tables.pop(name, None)
+                    break
+        if not tables:
+            return
+
+        def chain_stmt(key_expr, table: ast.Dict, make_stmt, at, guarded=False):
+            # under `if k in TABLE:` one of the keys matches; elsewhere a missing key raises
+            chain = None if guarded else ast.Raise(exc=ast.Call(func=ast.Name(id="KeyError", ctx=ast.Load()), args=[copy.deepcopy(key_expr)], keywords=[]), cause=None)
+            for k, v in reversed(list(zip(table.keys, table.values))):
+                chain = ast.If(test=ast.Compare(left=copy.deepcopy(key_expr), ops=[ast.Eq()], comparators=[copy.deepcopy(k)]), body=[make_stmt(copy.deepcopy(v))], orelse=[chain] if chain is not None else [])
+            _relocate([chain], at)
+            ast.fix_missing_locations(chain)
+            return chain
+
+        def rewrite(body, guards=frozenset()):
+            nonlocal done
+            out = []
+            i = 0
+            while i < len(body):
+                s_ = body[i]
+                for fld in ("body", "orelse", "finalbody"):
+                    b = getattr(s_, fld, None)
+                    if isinstance(b, list) and b and isinstance(b[0], ast.stmt) and not isinstance(s_, (ast.FunctionDef, ast.ClassDef)):
+                        g2 = guards
+                        t_ = s_.test if isinstance(s_, ast.If) else None
+                        if isinstance(t_, ast.Compare) and len(t_.ops) == 1 and isinstance(t_.comparators[0], ast.Name) and t_.comparators[0].id in tables \
+                                and ((isinstance(t_.ops[0], ast.In) and fld == "body") or (isinstance(t_.ops[0], ast.NotIn) and fld == "orelse")):
+                            g2 = guards | {(t_.comparators[0].id, ast.unparse(t_.left))}
+                        elif isinstance(s_, (ast.For, ast.While)):
+                            g2 = frozenset()
+                        setattr(s_, fld, rewrite(b, g2))
+                for h in getattr(s_, "handlers", []) or []:
+                    h.body = rewrite(h.body)
+                # a statement that may change the key ends the guard's knowledge
+                if guards and any(isinstance(x, ast.Call) or (isinstance(x, (ast.Name, ast.Attribute)) and isinstance(x.ctx, (ast.Store, ast.Del))) for x in ast.walk(s_)) \
+                        and not (isinstance(s_, ast.Assign) and isinstance(s_.value, ast.Subscript) and isinstance(s_.value.value, ast.Name) and s_.value.value.id in tables):
+                    after_guards = frozenset()
+                else:
+                    after_guards = guards
+                # f = TABLE[k] ; <one statement calling f>
+                if isinstance(s_, ast.Assign) and len(s_.targets) == 1 and isinstance(s_.targets[0], ast.Name) and isinstance(s_.value, ast.Subscript) \
+                        and isinstance(s_.value.value, ast.Name) and s_.value.value.id in tables and stores.get(s_.targets[0].id) == 1 and i + 1 < len(body):
+                    f_ = s_.targets[0].id
+                    nxt = body[i + 1]
+                    all_f = [x for x in ast.walk(fn) if isinstance(x, ast.Name) and x.id == f_ and isinstance(x.ctx, ast.Load)]
+                    in_next = [x for x in ast.walk(nxt) if isinstance(x, ast.Name) and x.id == f_ and isinstance(x.ctx, ast.Load)]
+                    callee_uses = [c for c in ast.walk(nxt) if isinstance(c, ast.Call) and isinstance(c.func, ast.Name) and c.func.id == f_]
+                    if isinstance(nxt, (ast.Expr, ast.Assign, ast.Return, ast.AugAssign)) and len(all_f) == len(in_next) == len(callee_uses) == 1:
+                        key_expr, table = s_.value.slice, tables[s_.value.value.id]
+
+                        def make(v, nxt=nxt, f_=f_):
+                            st2 = copy.deepcopy(nxt)
+                            for c in ast.walk(st2):
+                                if isinstance(c, ast.Call) and isinstance(c.func, ast.Name) and c.func.id == f_:
+                                    c.func = v
+                            return st2
+
+                        out.append(chain_stmt(key_expr, table, make, nxt, (s_.value.value.id, ast.unparse(key_expr)) in guards))
+                        done += 1
+                        touched.add(mod)
+                        i += 2
+                        guards = frozenset()
+                        continue
+                # TABLE[k](...) as the value of a simple statement
+                if isinstance(s_, (ast.Expr, ast.Assign, ast.Return, ast.AugAssign)) and isinstance(getattr(s_, "value", None), ast.Call) and isinstance(s_.value.func, ast.Subscript) \
+                        and isinstance(s_.value.func.value, ast.Name) and s_.value.func.value.id in tables:
+                    key_expr, table = s_.value.func.slice, tables[s_.value.func.value.id]
+
+                    def make2(v, s_=s_):
+                        st2 = copy.deepcopy(s_)
+                        st2.value.func = v
+                        return st2
+
+                    out.append(chain_stmt(key_expr, table, make2, s_, (s_.value.func.value.id, ast.unparse(key_expr)) in guards))
+                    done += 1
+                    touched.add(mod)
+                    i += 1
+                    guards = frozenset()
+                    continue
+                out.append(s_)
+                guards = after_guards
+                i += 1
+            return out
+
+        fn.body = rewrite(fn.body)
+
+        class M(ast.NodeTransformer):
+            def visit_Compare(self, n):
+                nonlocal done
+                self.generic_visit(n)
+                if len(n.ops) == 1 and isinstance(n.ops[0], (ast.In, ast.NotIn)) and isinstance(n.comparators[0], ast.Name) and n.comparators[0].id in tables:
+                    n.comparators[0] = ast.copy_location(ast.Tuple(elts=[copy.deepcopy(k) for k in tables[n.comparators[0].id].keys], ctx=ast.Load()), n.comparators[0])
+                    ast.fix_missing_locations(n)
+                    done += 1
+                    touched.add(mod)
+                return n
+
+        M().visit(fn)
+
+    for mod, t in trees.items():
+        for x in ast.walk(t):
+            if isinstance(x, ast.FunctionDef):
+                do_function(x, mod)
     for mod in touched:
         renumber(trees[mod])
     return done
